@@ -269,3 +269,18 @@ func TryKind(f func()) (kind int) {
 	f()
 	return 0
 }
+
+// MulDiv64 is a ghost operation for oracles: floor(a*b/c) computed without overflow (c != 0);
+// ok reports whether the quotient fits in 64 bits.
+func MulDiv64(a, b, c uint64) (q uint64, ok bool) {
+	p := new(big.Int).Mul(new(big.Int).SetUint64(a), new(big.Int).SetUint64(b))
+	p.Div(p, new(big.Int).SetUint64(c))
+	return p.Uint64(), p.IsUint64()
+}
+
+// MulLe is a ghost comparison for oracles: a*b <= c*d over unbounded integers.
+func MulLe(a, b, c, d uint64) bool {
+	x := new(big.Int).Mul(new(big.Int).SetUint64(a), new(big.Int).SetUint64(b))
+	y := new(big.Int).Mul(new(big.Int).SetUint64(c), new(big.Int).SetUint64(d))
+	return x.Cmp(y) <= 0
+}
